@@ -1,4 +1,13 @@
-/* C02(b) / C06(b): decode_huffman_code_block_stateless_base entered in ISAL_BLOCK_CODED with the
+/* (lead) The same harness and oracle as C02/h_fixed.c, with the decoder under test selectable:
+ *   default            decode_huffman_code_block_stateless_base (C)
+ *   -DASMDEC=01 / 04   the ASSEMBLY kernel decode_huffman_code_block_stateless_01/_04, lifted instruction by
+ *                      instruction to C at check time (vlib/x86lift.py -> lift_asmdec.c in the scratch include
+ *                      directory) and run on an explicit address-space model (state / input / output arena /
+ *                      stack / the image's constant tables); any access outside those regions is a violation.
+ *   -DPAD=k            k concrete zero bytes (end-of-block codes) follow the N arbitrary bytes, so that the kernel's
+ *                      speculative main loop (needs >= 8 input bytes and > 274 bytes of output space) is entered.
+ *
+ * C02(b) / C06(b): decode_huffman_code_block_stateless_base entered in ISAL_BLOCK_CODED with the
  * in-tree static (fixed-Huffman) lookup tables of igzip/static_inflate.h (struct-assigned, as
  * setup_static_header's memcpy does), on N arbitrary input bytes, differential against the
  * fixed-block symbol loop of the independent spec/rfc1951.h decoder (rfc_codes).
@@ -18,6 +27,10 @@
 #ifndef N
 #define N 2
 #endif
+#ifndef PAD
+#define PAD 0
+#endif
+#define NT (N + PAD)
 #ifndef AVAIL_OUT
 #define AVAIL_OUT 3
 #endif
@@ -34,7 +47,11 @@
 /* The reference gets room for one byte more than the window: enough to tell "fits" from "does not
  * fit" (then the only correct answer is OUT_OVERFLOW with the window filled) while keeping its
  * match-copy loop short (a 600-byte capacity made symbolic execution run > 15 min for N=1). */
+#ifndef REFCAP
 #define REFCAP (AVAIL_OUT + 1)
+#else
+#define REF_LIMITED 1 /* -DREFCAP=k with a large AVAIL_OUT: inputs whose output exceeds k-1 bytes are outside the query */
+#endif
 
 struct inputs {
         uint8_t in[N];
@@ -45,6 +62,171 @@ DECLARE_INPUTS
 
 static struct inflate_state st;
 static uint8_t arena[PRE + AVAIL_OUT + 8];
+static uint8_t inb[NT];
+
+#ifndef ASMDEC
+#define DECODER decode_huffman_code_block_stateless_base
+#else
+/* ---------------------------------------------------------------- address-space model for the lifted kernel */
+#define STATE_BASE 0x10000000ULL
+#define IN_BASE 0x20000000ULL
+#define OUT_BASE 0x30000000ULL /* arena[0] */
+#define STACK_BASE 0x40000000ULL
+#define STACK_SIZE 256
+/* 8-byte slots (<= 64 of them): CBMC keeps small arrays field-sensitive, so saved registers and spilled loop bounds stay
+ * concrete for the symbolic executor (as a byte array the spilled loop bound became symbolic and every loop was unrolled
+ * to its limit); the kernels only use aligned 8-byte stack accesses, anything else is reported */
+static uint64_t lift_stack[STACK_SIZE / 8];
+static uint64_t v_next_in, v_next_out;
+#define OFF(f) offsetof(struct inflate_state, f)
+static uint64_t LIFT_RD(uint64_t a, int n);
+static void LIFT_WR(uint64_t a, int n, uint64_t v);
+#define LIFT_UNREACHABLE() VASSERT(0, "lifted code: fell through the end of a basic block that cannot fall through")
+#include "lift_asmdec.c"
+
+static uint64_t
+state_rd(uint64_t off, int n)
+{
+        if (off == OFF(next_out) && n == 8)
+                return v_next_out;
+        if (off == OFF(next_in) && n == 8)
+                return v_next_in;
+        if (off == OFF(read_in) && n == 8)
+                return st.read_in;
+        if (n == 4) {
+                if (off == OFF(avail_out))
+                        return st.avail_out;
+                if (off == OFF(total_out))
+                        return st.total_out;
+                if (off == OFF(avail_in))
+                        return st.avail_in;
+                if (off == OFF(read_in_length))
+                        return (uint32_t) st.read_in_length;
+                if (off == OFF(bfinal))
+                        return st.bfinal;
+                if (off == OFF(block_state))
+                        return (uint32_t) st.block_state;
+                if (off == OFF(write_overflow_lits))
+                        return (uint32_t) st.write_overflow_lits;
+                if (off == OFF(write_overflow_len))
+                        return (uint32_t) st.write_overflow_len;
+                if (off == OFF(copy_overflow_length))
+                        return (uint32_t) st.copy_overflow_length;
+                if (off == OFF(copy_overflow_distance))
+                        return (uint32_t) st.copy_overflow_distance;
+                if (off >= OFF(lit_huff_code.short_code_lookup) && off < OFF(lit_huff_code.long_code_lookup) && !(off & 3))
+                        return st.lit_huff_code.short_code_lookup[(off - OFF(lit_huff_code.short_code_lookup)) / 4];
+        }
+        if (n == 2 && !(off & 1)) {
+                if (off >= OFF(lit_huff_code.long_code_lookup) && off < OFF(lit_huff_code.long_code_lookup) + sizeof(st.lit_huff_code.long_code_lookup))
+                        return st.lit_huff_code.long_code_lookup[(off - OFF(lit_huff_code.long_code_lookup)) / 2];
+                if (off >= OFF(dist_huff_code.short_code_lookup) && off < OFF(dist_huff_code.long_code_lookup))
+                        return st.dist_huff_code.short_code_lookup[(off - OFF(dist_huff_code.short_code_lookup)) / 2];
+                if (off >= OFF(dist_huff_code.long_code_lookup) && off < OFF(dist_huff_code.long_code_lookup) + sizeof(st.dist_huff_code.long_code_lookup))
+                        return st.dist_huff_code.long_code_lookup[(off - OFF(dist_huff_code.long_code_lookup)) / 2];
+        }
+        VASSERT(0, "assembly decoder reads a state field / width outside the modelled set");
+        return 0;
+}
+
+static void
+state_wr(uint64_t off, int n, uint64_t v)
+{
+        if (off == OFF(next_out) && n == 8)
+                v_next_out = v;
+        else if (off == OFF(next_in) && n == 8)
+                v_next_in = v;
+        else if (off == OFF(read_in) && n == 8)
+                st.read_in = v;
+        else if (off == OFF(avail_out) && n == 4)
+                st.avail_out = (uint32_t) v;
+        else if (off == OFF(total_out) && n == 4)
+                st.total_out = (uint32_t) v;
+        else if (off == OFF(avail_in) && n == 4)
+                st.avail_in = (uint32_t) v;
+        else if (off == OFF(read_in_length) && n == 4)
+                st.read_in_length = (int32_t) (uint32_t) v;
+        else if (off == OFF(block_state) && (n == 4 || n == 1))
+                st.block_state = (n == 4) ? (uint32_t) v : ((uint32_t) st.block_state & ~0xffu) | (uint8_t) v;
+        else if (off == OFF(write_overflow_lits) && n == 4)
+                st.write_overflow_lits = (int32_t) (uint32_t) v;
+        else if (off == OFF(write_overflow_len) && n == 4)
+                st.write_overflow_len = (int32_t) (uint32_t) v;
+        else if (off == OFF(copy_overflow_length) && n == 4)
+                st.copy_overflow_length = (int32_t) (uint32_t) v;
+        else if (off == OFF(copy_overflow_distance) && n == 4)
+                st.copy_overflow_distance = (int32_t) (uint32_t) v;
+        else
+                VASSERT(0, "assembly decoder writes a state field / width outside the modelled set");
+}
+
+static uint8_t
+rd8(uint64_t a)
+{
+        uint8_t b;
+        if (a - IN_BASE < NT)
+                return inb[a - IN_BASE];
+        if (a - OUT_BASE < sizeof(arena))
+                return arena[a - OUT_BASE];
+        if (lift_img_byte(a, &b))
+                return b;
+        VASSERT(0, "assembly decoder reads outside the input, the output arena, its stack and its constant tables");
+        return 0;
+}
+
+static uint64_t
+LIFT_RD(uint64_t a, int n)
+{
+        if (a - STATE_BASE < sizeof(struct inflate_state))
+                return state_rd(a - STATE_BASE, n);
+        if (a - STACK_BASE < STACK_SIZE) {
+                VASSERT(n == 8 && !(a & 7), "stack access is an aligned 8-byte slot");
+                return lift_stack[(a - STACK_BASE) / 8];
+        }
+        uint64_t v = 0;
+        for (int i = 0; i < n; i++)
+                v |= (uint64_t) rd8(a + i) << (8 * i);
+        return v;
+}
+
+static void
+LIFT_WR(uint64_t a, int n, uint64_t v)
+{
+        if (a - STATE_BASE < sizeof(struct inflate_state)) {
+                state_wr(a - STATE_BASE, n, v);
+                return;
+        }
+        if (a - STACK_BASE < STACK_SIZE) {
+                VASSERT(n == 8 && !(a & 7), "stack access is an aligned 8-byte slot");
+                lift_stack[(a - STACK_BASE) / 8] = v;
+                return;
+        }
+        for (int i = 0; i < n; i++) {
+                uint64_t p = a + i;
+                uint8_t b = (uint8_t) (v >> (8 * i));
+                if (p - OUT_BASE < sizeof(arena))
+                        arena[p - OUT_BASE] = b;
+                else
+                        VASSERT(0, "assembly decoder writes outside the output arena and its stack");
+        }
+}
+
+#define LIFTFN_(v) lift_decode_huffman_code_block_stateless_##v
+#define LIFTFN(v) LIFTFN_(v)
+static int
+asm_decode(struct inflate_state *s, uint8_t *start_out)
+{
+        v_next_in = IN_BASE + (uint64_t) (s->next_in - inb);
+        v_next_out = OUT_BASE + (uint64_t) (s->next_out - arena);
+        uint64_t r = LIFTFN(ASMDEC)(STATE_BASE, OUT_BASE + (uint64_t) (start_out - arena), 0, 0, STACK_BASE + STACK_SIZE - 64);
+        VASSERT(v_next_in - IN_BASE <= NT, "next_in inside the input");
+        VASSERT(v_next_out - OUT_BASE <= sizeof(arena), "next_out inside the arena");
+        s->next_in = inb + (v_next_in - IN_BASE);
+        s->next_out = arena + (v_next_out - OUT_BASE);
+        return (int) (int32_t) (uint32_t) r;
+}
+#define DECODER asm_decode
+#endif
 static uint8_t ref_out[REFCAP], ref_out2[REFCAP];
 
 static int
@@ -59,17 +241,19 @@ void
 harness(void)
 {
         VERIF_INPUTS();
+        for (int i = 0; i < NT; i++)
+                inb[i] = i < N ? I.in[i] : 0; /* PAD concrete zero bytes: end-of-block codes */
         uint8_t *out = arena + PRE;
         struct rfc_st r;
         VASSUME(I.bfinal <= 1);
 
         /* reference: the same bytes as the body of a fixed-Huffman block, unlimited output */
-        int rs = run_ref(&r, I.in, N, ref_out, 0, 0);
-#if N >= 3
+        int rs = run_ref(&r, inb, NT, ref_out, 0, 0);
+#if NT >= 3
         {       /* exclusion described at PRE/DLIM: with DLIM zero bytes of pretend history the reference
                  * must not hit a distance error */
                 struct rfc_st rd;
-                VASSUME(run_ref(&rd, I.in, N, ref_out2, arena + PRE - DLIM, DLIM) != RFC_BAD_DIST);
+                VASSUME(run_ref(&rd, inb, NT, ref_out2, arena + PRE - DLIM, DLIM) != RFC_BAD_DIST);
         }
 #endif
         /* A truncated input may already be doomed: the bits present only continue to undefined
@@ -78,15 +262,18 @@ harness(void)
          * continuation ext[], i.e. INVALID_SYMBOL is accepted only if no continuation is valid. */
         int doomed = 0;
         if (rs == RFC_TRUNCATED) {
-                uint8_t in2[N + 2];
+                uint8_t in2[NT + 2];
                 struct rfc_st r2;
-                for (int i = 0; i < N; i++)
-                        in2[i] = I.in[i];
-                in2[N] = I.ext[0], in2[N + 1] = I.ext[1];
-                doomed = run_ref(&r2, in2, N + 2, ref_out2, 0, 0) == RFC_BAD_SYMBOL && r2.pos <= N * 8 + 1;
+                for (int i = 0; i < NT; i++)
+                        in2[i] = inb[i];
+                in2[NT] = I.ext[0], in2[NT + 1] = I.ext[1];
+                doomed = run_ref(&r2, in2, NT + 2, ref_out2, 0, 0) == RFC_BAD_SYMBOL && r2.pos <= NT * 8 + 1;
         }
 #ifdef VALID_ONLY
         VASSUME(rs == RFC_OK);
+#endif
+#ifdef REF_LIMITED
+        VASSUME(rs != RFC_OUTFULL && r.out_len < REFCAP);
 #endif
 
         for (int i = 0; i < 8; i++)
@@ -96,12 +283,12 @@ harness(void)
         st.dist_huff_code = static_dist_huff_code;
         st.block_state = ISAL_BLOCK_CODED;
         st.bfinal = I.bfinal;
-        st.next_in = I.in;
-        st.avail_in = N;
+        st.next_in = inb;
+        st.avail_in = NT;
         st.next_out = out;
         st.avail_out = AVAIL_OUT;
 
-        int ret = decode_huffman_code_block_stateless_base(&st, out);
+        int ret = DECODER(&st, out);
 
         /* ---- safety / contract (C06) ---- */
         VASSERT(ret == ISAL_DECOMP_OK || ret == ISAL_END_INPUT || ret == ISAL_OUT_OVERFLOW ||
@@ -112,7 +299,7 @@ harness(void)
                 "total_out <= avail_out, next_out/avail_out consistent");
         for (int i = 0; i < 8; i++)
                 VASSERT(arena[PRE + AVAIL_OUT + i] == 0xA5, "bytes after the output window untouched");
-        VASSERT(st.next_in >= I.in && st.next_in <= I.in + N && st.avail_in == (uint32_t) (N - (st.next_in - I.in)),
+        VASSERT(st.next_in >= inb && st.next_in <= inb + NT && st.avail_in == (uint32_t) (NT - (st.next_in - inb)),
                 "next_in/avail_in consistent");
         for (unsigned i = 0; i < AVAIL_OUT; i++)
                 if (i < st.total_out && i < r.out_len)
@@ -124,7 +311,7 @@ harness(void)
                 VASSERT(rs == RFC_OK, "success only if the reference decodes up to the end-of-block code");
                 VASSERT(st.total_out == r.out_len, "same number of bytes as the reference");
                 VASSERT(st.block_state == (I.bfinal ? ISAL_BLOCK_INPUT_DONE : ISAL_BLOCK_NEW_HDR), "block finished state");
-                VASSERT(st.read_in_length >= 0 && ic_bitpos(&st, I.in) == r.pos,
+                VASSERT(st.read_in_length >= 0 && ic_bitpos(&st, inb) == r.pos,
                         "bit position (next_in*8 - read_in_length) == true end of the block");
         }
         /* ---- every valid block is reproduced ---- */
@@ -159,7 +346,7 @@ harness(void)
                         VASSERT(ret == ISAL_END_INPUT || ret == ISAL_OUT_OVERFLOW || (doomed && ret == ISAL_INVALID_SYMBOL),
                                 "truncated after the window filled");
                 if (ret == ISAL_END_INPUT)
-                        VASSERT(st.read_in_length >= 0 && ic_bitpos(&st, I.in) <= N * 8 && st.block_state == ISAL_BLOCK_CODED,
+                        VASSERT(st.read_in_length >= 0 && ic_bitpos(&st, inb) <= NT * 8 && st.block_state == ISAL_BLOCK_CODED,
                                 "END_INPUT: bit buffer rolled back to a symbol boundary, block still open");
         }
         VREACHED();
